@@ -42,6 +42,17 @@ func init() {
 func (p propC05) Gen(r *simrt.Rand, idx int, tier string) any {
 	if idx%2 == 0 {
 		c := genSeqCase(r, seqProfile{prop: "C05", steps: [2]int{15, 50}, keys: [2]int{2, 4}, maxTx: 4, txWeight: 50, ctlWeight: 8, reopen: 10, readback: "all"})
+		if idx%8 == 2 {
+			// Run B: the same kind of history, every Close/Open being a real process boundary: one
+			// fresh child process per segment on a directory that outlives them
+			for i := range c.Ops {
+				if c.Ops[i].K == "reopen" {
+					c.Ops[i].K = "restart"
+				}
+			}
+			c.Ops = append(c.Ops, Op{K: "restart"}, Op{K: "keys"})
+			c.Dir = "segments"
+		}
 		return C05Case{Single: &c}
 	}
 	c := MultiCase{NDB: 2 + r.Intn(2), Keys: genKeys(r, 2, 3)}
@@ -144,6 +155,9 @@ func (p propC05) Decode(b json.RawMessage) (any, error) {
 func (p propC05) Exec(x any, choices []int32) RunOut {
 	c := x.(C05Case)
 	if c.Single != nil {
+		if c.Single.Dir == "segments" {
+			return segmentedExec(*c.Single)
+		}
 		return seqExec(*c.Single, choices)
 	}
 	return multiExec(*c.Multi, choices)
